@@ -8,12 +8,64 @@ namespace Rateslib
 open Load
 
 theorem ccy_try_new_spec (name c : String) (h : ccyTryNew name = some c) :
-    c = name.toLower ∧ c.utf8ByteSize = 3 := by
+    c = lowerStr name ∧ c.utf8ByteSize = 3 := by
   unfold ccyTryNew at h
   simp only at h
   split at h
   · next h3 => injection h with h; subst h; exact ⟨rfl, h3⟩
   · cases h
+
+
+/-! ### lower-casing -/
+
+theorem toNat_ofNat_small (m : Nat) (h : m < 0xD800) : (Char.ofNat m).toNat = m := by
+  have hv : m.isValidChar := Or.inl h
+  simp [Char.ofNat, hv, Char.toNat, Char.ofNatAux]
+
+/-- lower-casing a lower-cased character changes nothing -/
+theorem lowerChar_idem (c : Char) : lowerChar (lowerChar c) = lowerChar c := by
+  unfold lowerChar
+  simp only
+  split
+  · next h =>
+    have hn : c.toNat + 32 < 0xD800 := by omega
+    rw [toNat_ofNat_small _ hn]
+    rw [if_neg (by omega), if_neg (by omega)]
+  · split
+    · next h1 h =>
+      have hn : c.toNat + 80 < 0xD800 := by omega
+      rw [toNat_ofNat_small _ hn]
+      rw [if_neg (by omega), if_neg (by omega)]
+    · rfl
+
+theorem lowerStr_idem (s : String) : lowerStr (lowerStr s) = lowerStr s := by
+  unfold lowerStr
+  rw [String.map_map]
+  congr 1
+  funext c
+  exact lowerChar_idem c
+
+theorem ccy_stored_reloads (name c : String) (h : ccyTryNew name = some c) : ccyTryNew c = some c := by
+  obtain ⟨h1, h2⟩ := ccy_try_new_spec name c h
+  unfold ccyTryNew
+  simp only
+  rw [h1, lowerStr_idem, ← h1, if_pos h2]
+
+theorem fxpair_self_rejected (l r : String) (h : lowerStr l = lowerStr r) : fxPairTryNew l r = none := by
+  have hc : ccyTryNew l = ccyTryNew r := by unfold ccyTryNew; simp only [h]
+  unfold fxPairTryNew
+  rw [hc]
+  cases hr : ccyTryNew r with
+  | none => rfl
+  | some b => simp
+
+theorem fxpair_accepts_iff (l r : String) :
+    (fxPairTryNew l r).isSome ↔
+      ((lowerStr l).utf8ByteSize = 3 ∧ (lowerStr r).utf8ByteSize = 3 ∧ lowerStr l ≠ lowerStr r) := by
+  unfold fxPairTryNew ccyTryNew
+  simp only
+  by_cases h1 : (lowerStr l).utf8ByteSize = 3 <;> by_cases h2 : (lowerStr r).utf8ByteSize = 3 <;>
+    by_cases h3 : lowerStr l = lowerStr r <;> simp [h1, h2, h3]
 
 section FX
 variable {α : Type} [Add α] [Sub α] [Mul α] [Div α] [Neg α] [OfNat α 0] [OfNat α 1] [OfNat α 2]
